@@ -259,7 +259,7 @@ class C07:
         outcomes, dumps, _ = split_outs(case, outs, True)
         fails = []
         prev = None
-        empty = {"cls": case["cls"], "rem": case["rem"], "nodes": [], "tl": [], "ev": [], "chrono": 1, "ids": [], "cnt": []}
+        empty = {"cls": case["cls"], "rem": case["rem"], "g": 0, "nodes": [], "tl": [], "ev": [], "chrono": 1, "ids": [], "cnt": []}
         prev = empty
         for i, (op, got, d) in enumerate(zip(case["ops"], outcomes, dumps)):
             if got in ("E:VE", "E:NXE") and op[0] == "add":
